@@ -202,7 +202,7 @@ func runC01(c *core.Ctx) {
 	}
 	ok := true
 	// G-val: every infix operator x every ordered pair of boundary values; every prefix operator x every value
-	vals := c01Values(!c.Quick())
+	vals := c01Values(true)
 	for _, op := range c01Infix {
 		for _, l := range vals {
 			for _, r := range vals {
@@ -224,9 +224,6 @@ func runC01(c *core.Ctx) {
 	// G-expr: a op1 b op2 c (op3 d) without parentheses: precedence and associativity, typed leaves
 	if ok {
 		leaves := []string{"1", "2", "7", "1.5", "true", "false", `"a"`}
-		if c.Quick() {
-			leaves = []string{"2", "7", "1.5", "true", `"a"`}
-		}
 		ops := append([]string{}, c01Infix...)
 		for _, o1 := range ops {
 			for _, o2 := range ops {
@@ -257,7 +254,7 @@ func runC01(c *core.Ctx) {
 			}
 		}
 		bounds = append(bounds, fmt.Sprintf("G-expr: a op1 b op2 c for all %d^2 operator pairs x %d^3 typed leaves, prefix operators in every operand position", len(ops), len(leaves)))
-		if !c.Quick() && ok {
+		if ok {
 			small := []string{"2", "7", "1.5", "true"}
 			for _, o1 := range ops {
 				for _, o2 := range ops {
@@ -299,7 +296,7 @@ func runC01(c *core.Ctx) {
 					do("index", "x = "+ct+"; x["+i+"]")
 					do("index", "x = "+ct+"; x["+i+":]")
 					for _, j := range idxs {
-						if !c.Quick() || (len(i) <= 2 && len(j) <= 2) {
+						if true {
 							do("index", "x = "+ct+"; x["+i+":"+j+"]")
 						}
 					}
@@ -315,15 +312,15 @@ func runC01(c *core.Ctx) {
 	// G-stmt: skeleton x statement-alphabet sequences (control flow x scoping x functions)
 	if ok {
 		ok = c01Stmt(c, do)
-		bounds = append(bounds, "G-stmt: 4 skeletons x every sequence of <=2 (thorough 3) of a ~45-statement alphabet (assignment forms, ++/--, if/else, all loop forms with break/continue/return/error at each position, function and lambda definitions, closures, recursion, variadics, println)")
+		bounds = append(bounds, "G-stmt: 4 skeletons x every sequence of <=2 statements of the ~90-statement alphabet and every sequence of 3 of its first 30 (thorough: 64) statements (assignment forms, ++/--, if/else, all loop forms with break/continue/return/error at each position, function and lambda definitions, closures, recursion, variadics, println)")
 	}
 	// G-syn wild programs evaluated (reference and implementation must agree also on ill-typed programs)
 	if ok {
 		full := gen.FullCfg()
 		full.Builtins = []string{"len", "first", "rest", "println", "print", "error", "catch", "del"}
-		maxSize := 3
+		maxSize := 4
 		if !c.Quick() {
-			maxSize = 4
+			maxSize = 5
 		}
 		for size := 1; size <= maxSize && ok; size++ {
 			ok = full.EnumStmt(size, func(n *gen.N) bool {
@@ -378,9 +375,10 @@ func c01Stmt(c *core.Ctx, do func(fam string, inputs ...string) bool) bool {
 		"v = 2; w = 0\nf = func(p) { v := 3; %s; [v, w, p] }\nprintln(f(1)); println(v, w)",
 		"w = 0\nfunc f(v, p) { g2 = func() { %s; [v, w, p] }; g2() }\nprintln(f(2, 1)); println(w)",
 	}
-	depth := 2
+	depth := 3
+	limit3 := 30
 	if !c.Quick() {
-		depth = 3
+		limit3 = 64
 	}
 	alpha := c01StmtAlphabet
 	return enumTuples(len(alpha), depth, func(idx []int) bool {
@@ -388,9 +386,9 @@ func c01Stmt(c *core.Ctx, do func(fam string, inputs ...string) bool) bool {
 			return true
 		}
 		if len(idx) == 3 {
-			// three-statement bodies over the first 30 statements only (bounded product)
+			// three-statement bodies over the first 30 (thorough: 64) statements only (bounded product)
 			for _, x := range idx {
-				if x >= 30 {
+				if x >= limit3 {
 					return true
 				}
 			}
